@@ -6,6 +6,10 @@ CLAIMED={
  'C19':("all query/mutation functions of the two-tier raft log (inMemory, entryLog, LogReader) verified against an abstract view; unbounded proof per function","ILogDB behaviour behind raft.ILogDB is an assumed contract (LogReader is verified against the same clauses); Peer-level call-protocol preconditions assumed; one conjunct of entryLog.getEntries (Term of returned entries) is a free (assumed) postcondition"),
  'C05':("session dedup state machine: at-most-once Update per (session, series), cached result returned, acknowledged => ignored, unknown session => rejected and SM untouched; unbounded proof","goutils LRU cache behind lrusession is an assumed contract (ghost table); JSON (de)serialisation of sessions across snapshots not covered; GetPayload trusted pure"),
  'C07':("every accept/reject rule of the statement is a postcondition of membership.handleConfigChange; rejected => unchanged; disjointness invariant preserved; unbounded proof","addressEqual is an uninterpreted relation; raft-side single-in-flight rule and cross-replica agreement (C02/C03) not covered by this check"),
+ 'C03':("one vote per term (two-state postconditions of every function that writes term/vote), election restriction (upToDate), leadership only from a counted quorum of distinct voters (counting proved for arbitrary map iteration order), hard state handed out for persistence whenever it changed; unbounded per-function proofs","cross-replica election-safety / leader-completeness theorems are assumed over these local obligations (Raft proof); quorum intersection; counting axioms cnt2 trusted; becomeLeader's heavy callees (appendEntries, preLeaderPromotionHandleConfigChange, broadcastReplicateMessage) have assumed contracts; frames of message-sending loops not verified (noframe)"),
+ 'C18':("quorum arithmetic, role guards of every become* transition, voting members = remotes ∪ witnesses, non-voting vote responses dropped, witnesses never get reads served; unbounded per-function proofs","handler-table nil slots, witness payload stripping and node.go API guards are not under contract yet; schedule-dependent interplay with in-flight membership application"),
+ 'C06':("ReadIndex bookkeeping: admission only with a committed entry of the current term and with index = commit index at admission; release only after quorum distinct confirmations incl. self; single-voter shortcut only when quorum is 1; readIndex dropped on every reset; unbounded per-function proofs","that a quorum-confirmed leader's commit index dominates earlier acknowledged writes (Raft thesis 6.4) is assumed; request.go (reader released only when applied >= index) not yet under contract; broadcastHeartbeatMessageWithHint assumed"),
+ 'C02':("local obligations: term/matchTerm/getConflictIndex/tryAppend/append (log matching, conflict truncation never at or below commit), commit only of entries whose term matches (entryLog.tryCommit), contiguous in-order hand-out of committed entries, setApplied advances by exactly one; unbounded per-function proofs","the cross-replica state-machine-safety theorem is assumed over these local obligations; raft.tryCommit's quorum-th largest match (sorting) and handleReplicateMessage are not yet under contract"),
 }
 NA={
  'C01':"linearizability is a predicate over concurrent client histories under fault schedules; no per-function contract expresses it (its mechanisms are decided under C06, C12, C02, C11)",
